@@ -811,6 +811,9 @@ func (ex *Exec) scanEffects(n ast.Node, vars map[types.Object]bool, eff *effects
 						}
 						if pn == name {
 							mark(s.Args[i])
+							if src := ex.containerSrcOf(s.Args[i]); src != nil {
+								mark(src.X) // the element m[k] the variable was read from changes with it
+							}
 						}
 					}
 				}
@@ -1107,6 +1110,7 @@ func (ex *Exec) sortSliceIntrinsic(st *State, pc *preparedCall, k func(*State, [
 	st.assume(fmt.Sprintf("(forall ((q_i Int)) (! (=> (and (<= 0 q_i) (< q_i %s)) (and (<= 0 (%s q_i)) (< (%s q_i) %s) (= (%s (%s q_i)) q_i) (= (select (s-arr %s) q_i) (select (s-arr %s) (%s q_i))))) :pattern ((select (s-arr %s) q_i)) :pattern ((%s q_i))))", n, perm, perm, n, inv, perm, nv.T, old.T, perm, nv.T, perm))
 	st.assume(fmt.Sprintf("(forall ((q_j Int)) (! (=> (and (<= 0 q_j) (< q_j %s)) (and (<= 0 (%s q_j)) (< (%s q_j) %s) (= (%s (%s q_j)) q_j))) :pattern ((select (s-arr %s) q_j)) :pattern ((%s q_j))))", n, inv, inv, n, perm, inv, old.T, inv))
 	ex.assignTo(st, xe, nv, func(st2 *State) {
+		ex.writeBackContainer(st2, xe, nv)
 		// order: symbolic execution of the comparator on (q_b, q_a) with q_a < q_b
 		intT := types.Typ[types.Int]
 		qa, qb := Val{T: "q_a", S: SInt, GoT: intT}, Val{T: "q_b", S: SInt, GoT: intT}
@@ -1124,4 +1128,48 @@ func (ex *Exec) sortSliceIntrinsic(st *State, pc *preparedCall, k func(*State, [
 		}
 		k(st2, nil)
 	})
+}
+
+// containerSrcOf: the map element a slice-typed argument variable shares its backing array with, if any.
+func (ex *Exec) containerSrcOf(arg ast.Expr) *containerSrc {
+	id, ok := unparen(arg).(*ast.Ident)
+	if !ok {
+		return nil
+	}
+	obj, ok := ex.info.Uses[id].(*types.Var)
+	if !ok {
+		return nil
+	}
+	src := ex.containerOf[obj]
+	if src == nil {
+		return nil
+	}
+	if src.fromDecl && (ex.reassigned[obj] || ex.reassigned[src.keyObj]) {
+		ex.oof(arg.Pos(), "in-place change of slice %s read from a map element and reassigned since (aliasing not modelled)", id.Name)
+	}
+	return src
+}
+
+// writeBackContainer: after an in-place change of a slice variable read from m[k] (range value or v := m[k]) the
+// element m[k] holds the changed slice as well (they share the backing array; the length is unchanged).
+func (ex *Exec) writeBackContainer(st *State, arg ast.Expr, nv Val) {
+	src := ex.containerSrcOf(arg)
+	if src == nil {
+		return
+	}
+	if src.loopKey != "" {
+		key, ok := st.extra[src.loopKey]
+		if !ok {
+			ex.oof(arg.Pos(), "in-place change of a range value outside its loop (aliasing not modelled)")
+			return
+		}
+		ex.checkMapParamWrite(arg.Pos(), src.X)
+		ex.eval(st, src.X, func(st2 *State, m Val) {
+			nm := ex.share(st2, mapStore(ex.share(st2, m), key.T, nv.T))
+			nm.GoT = ex.typeOf(src.X)
+			ex.assignTo(st2, src.X, nm, func(*State) {})
+		})
+		return
+	}
+	ex.assignTo(st, &ast.IndexExpr{X: src.X, Lbrack: arg.Pos(), Index: src.Key, Rbrack: arg.Pos()}, nv, func(*State) {})
 }
